@@ -46,7 +46,8 @@ ASSUMPTIONS = [
     "empty request path against an all-optional pattern, are not decided by the documentation: skipped and counted "
     "as unspecified_pairs",
     "every form in the grammar table begins with '/', so a non-empty path without leading slash matches nothing",
-    "a + / * binding may or may not carry the tolerated trailing slash; None and '' both mean 'nothing bound'",
+    "bound values are strings: a + / * binding is the bound segments joined with '/', and may or may not carry the "
+    "tolerated trailing slash; None and '' both mean 'nothing bound'",
     "each dispatch comes from a fresh client address, so the per-address rate limiter never answers 429",
 ]
 BUDGET_S = {"quick": 60, "thorough": 600}
@@ -142,6 +143,10 @@ def ref_match(pat, path):
         return (UNSPEC if pat.all_optional else NOMATCH), None
     if path[0] != "/":
         return NOMATCH, None
+    if path == "//" and not pat.head and pat.tail is None:
+        # the pattern '/' has no segment: the docs spell its path '/', so '//' is that path plus the one tolerated
+        # trailing slash under one reading and an empty segment under the other
+        return UNSPEC, None
     cands = candidates(path)
     for segs in cands:
         b = match_segments(pat, segs, False)
@@ -261,8 +266,9 @@ class Table(object):
 
 
 def expectation(pats, entries, method, path):
-    """-> (acceptable: set of route indexes (None = no route), first: index or None when the answer is not unique,
-    verdicts, bindings) following 'the first registered matching route of the request's method is chosen'"""
+    """-> (acceptable, verdicts, bindings) following 'the first registered matching route of the request's method is
+    chosen'.  acceptable = set of route indexes the router may answer (None = no route): the first route the grammar
+    says matches, plus every earlier route whose verdict the grammar leaves unspecified"""
     acceptable = set()
     verdicts = {}
     binds = {}
@@ -298,6 +304,7 @@ def check_lookup(ctx, table, pats, method, path, case, with_dispatch=True):
         got = table.index_of(endpt)
         if got is None:
             ctx.violation("foreign-route", "%s: getRoute returned a route that is not registered: %r" % (where, endpt), case)
+            return acceptable, verdicts, binds
     if got not in acceptable:
         if got is None:
             first = min(i for i in acceptable if i is not None)
@@ -326,10 +333,11 @@ def check_lookup(ctx, table, pats, method, path, case, with_dispatch=True):
             if status != 200 or len(calls) != 1 or calls[0][0] not in acceptable:
                 ctx.violation("dispatch-route", "%s: dispatch -> status %r, handlers called %r, expected one call of a route in %r"
                               % (where, status, calls, sorted(acceptable, key=repr)), case)
-            i = calls[0][0]
-            if verdicts[i] == MATCH and not bindings_equal(pats[i], path, calls[0][1], binds[i]):
-                ctx.violation("bindings", "%s: dispatch handed request.matches=%r to route #%d, the grammar binds %r"
-                              % (where, calls[0][1], i, binds[i]), case)
+            else:
+                i = calls[0][0]
+                if verdicts[i] == MATCH and not bindings_equal(pats[i], path, calls[0][1], binds[i]):
+                    ctx.violation("bindings", "%s: dispatch handed request.matches=%r to route #%d, the grammar binds %r"
+                                  % (where, calls[0][1], i, binds[i]), case)
         else:
             if not ((status == 404 and not calls) or (status == 200 and len(calls) == 1 and calls[0][0] in acceptable)):
                 ctx.violation("dispatch-route", "%s: dispatch -> status %r, handlers called %r" % (where, status, calls), case)
@@ -615,10 +623,10 @@ def plan(tier):
     else:
         for i in range(16):
             specs.append({"part": "pairs", "i": i, "n": 16, "maxseg": 5, "nolead": 3})
-        for i in range(24):
-            specs.append({"part": "tables", "n": 12000, "i": i})
+        for i in range(16):
+            specs.append({"part": "tables", "n": 10000, "i": i})
         for i in range(8):
-            specs.append({"part": "lits", "n": 60000, "i": i})
+            specs.append({"part": "lits", "n": 40000, "i": i})
     return specs
 
 
